@@ -109,7 +109,7 @@ names are declared using VersionParser.define()
         if isinstance(self._tokens, bool):
             return self._tokens
 
-        val = self._expr()              # n.b. may not have consumed all tokens as || and && short circuit
+        val = self._expr()
 
         if val == "EOF":
             return False
@@ -123,9 +123,11 @@ names are declared using VersionParser.define()
             op = self._next()
 
             if op == "||" or op == "or":
-                lhs = lhs or self._term()
+                rhs = self._term()      # always evaluated, so that its tokens are consumed
+                lhs = lhs or rhs
             elif op == "&&" or op == "and":
-                lhs = lhs and self._term()
+                rhs = self._term()
+                lhs = lhs and rhs
             else:
                 self._push(op)
                 return lhs
